@@ -158,6 +158,15 @@ class Runner:
         hobj = self.native_obj(os.path.join(VERIF, 'harness', ob.harness), hd, san)
         rd = {'VERIF_KF_ACTIVE': '%du' % self.kf_active, 'VERIF_KF_CONFIRM': '%du' % kf_confirm, 'VERIF_ENTRY': ob.entry}
         robj = self.native_obj(os.path.join(RT, 'native_rt.cpp'), rd, san)
+        for cf in ob.extra_c_files:
+            key = keyof('cobj', cf, san)
+            def bc(cf=cf, key=key):
+                o = os.path.join(self.work, '_obj', key + '_' + cf + '.o')
+                os.makedirs(os.path.dirname(o), exist_ok=True)
+                rc, so, se, w, _ = run(['gcc', '-O1', '-w', '-c', '-I' + RT, os.path.join(VERIF, 'harness', cf), '-o', o] + (['-fsanitize=address,undefined'] if san else []), timeout=120)
+                if rc != 0: raise BuildError('gcc failed on %s: %s' % (cf, se[-1000:]))
+                return o
+            objs = objs + [once(key, bc)]
         base = ['g++', '-o', out, hobj, robj] + objs + (['-fsanitize=address,undefined'] if san else []) + ['-lpthread', '-Wl,--no-demangle']
         rc, so, se, w, _ = run(base, timeout=300)
         if rc != 0:
@@ -192,16 +201,20 @@ class Runner:
         if rc != 0:
             raise BuildError('llvm-link failed:\n%s' % se[-2000:])
         mc = os.path.join(d, 'm.c'); rep = os.path.join(d, 'rep.json')
-        cmd = [sys.executable, os.path.join(VERIF, 'ir2c.py'), mll, '-o', mc, '--entry', ob.entry, '--report', rep]
+        deff = os.path.join(d, 'defined.txt')
+        defined = set(self.stubs)
+        for cf in ob.extra_c_files:
+            txt = open(os.path.join(VERIF, 'harness', cf)).read()
+            defined |= set(re.findall(r'^[A-Za-z_][A-Za-z0-9_ \*]*?[ \*]([A-Za-z_][A-Za-z0-9_]*)\s*\([^;{]*\)\s*\{', txt, re.M))
+        open(deff, 'w').write('\n'.join(sorted(defined)) + '\n')
+        cmd = [sys.executable, os.path.join(VERIF, 'ir2c.py'), mll, '-o', mc, '--entry', ob.entry, '--report', rep, '--defined', deff]
         for s in ob.extra_stub: cmd += ['--stub', s]
         rc, so, se, w, _ = run(cmd, timeout=300)
         if rc != 0:
             raise BuildError('ir2c failed:\n%s' % se[-3000:])
         r = json.load(open(rep))
         from ir2c import LIBC
-        unmod = [e for e in r['externals'] if e not in self.stubs and e not in LIBC and not e.startswith('__CPROVER')
-                 and e not in ob.extra_stub_defined()]
-        return mc, r, unmod
+        return mc, r, []
 
     # ------------------------------------------------------------------ self test
     def selftest(self, ob, mc, nseeds=40):
@@ -226,7 +239,9 @@ class Runner:
                 n = min(len(l1), len(l2))
                 if l1[:n] != l2[:n]: mism.append(seed)
                 continue
-            if r1[1] != r2[1]:
+            f1 = [l for l in r1[1].split('\n') if l[:2] in ('A ', 'O ') or l in ('END', 'ASSUME-STOP')]
+            f2 = [l for l in r2[1].split('\n') if l[:2] in ('A ', 'O ') or l in ('END', 'ASSUME-STOP')]
+            if f1 != f2:
                 mism.append(seed)
             else:
                 agree += 1
@@ -248,12 +263,12 @@ class Runner:
               ['-I' + RT, '--function', ob.entry, '--unwind', str(ob.unwind)] + CBMC_BASE + dflags(cd) + ob.cbmc_extra
         if ob.unwindset:
             ls = self.loops(ob, mc)
-            us = []
-            for pat, n in ob.unwindset.items():
+            usd = {}
+            for pat, n in ob.unwindset.items():          # later patterns override earlier ones
                 rx = re.compile(pat)
                 for l in ls:
-                    if rx.search(l): us.append('%s:%d' % (l, n))
-            if us: cmd += ['--unwindset', ','.join(us)]
+                    if rx.search(l): usd[l] = n
+            if usd: cmd += ['--unwindset', ','.join('%s:%d' % kv for kv in usd.items())]
         if ob.solver == 'kissat': cmd += ['--external-sat-solver', 'kissat']
         elif ob.solver == 'cadical': cmd += ['--sat-solver', 'cadical']
         rc, so, se, w, rss = run(cmd, timeout=ob.timeout, mem_gb=ob.mem_gb * 2.5)
